@@ -2,6 +2,7 @@
 package c15
 
 import (
+	"bufio"
 	"bytes"
 	"context"
 	"encoding/json"
@@ -206,6 +207,21 @@ func (w recWRF) ReadFrom(r io.Reader) (n int64, err error) {
 	}
 }
 
+// recWHJ is recW on a connection that can be taken over once: a second Hijack fails with http.ErrHijacked, as net/http's does.
+type recWHJ struct {
+	*recW
+	taken *int
+}
+
+func (w recWHJ) Hijack() (net.Conn, *bufio.ReadWriter, error) {
+	if *w.taken++; *w.taken > 1 {
+		return nil, nil, http.ErrHijacked
+	}
+	a, b := net.Pipe()
+	_ = b.Close()
+	return a, bufio.NewReadWriter(bufio.NewReader(a), bufio.NewWriter(a)), nil
+}
+
 // panicSrc delivers "partial" and panics with the case's value when it is read again.
 type panicSrc struct {
 	value string
@@ -235,6 +251,13 @@ func checkCase(c *Case) (err error) {
 		case "body":
 			ctx.Writer().WriteHeader(http.StatusAccepted)
 			_, _ = ctx.Writer().Write([]byte("partial"))
+		case "hijacked-twice":
+			// the handler takes the connection over, and something it calls tries again (and is told no): the connection
+			// stays the handler's, nothing more goes through the writer - not even Recovery's 500
+			if conn, _, err := ctx.Writer().Hijack(); err == nil {
+				_ = conn.Close()
+			}
+			_, _, _ = ctx.Writer().Hijack()
 		case "readfrom-panic":
 			// the response is started by the first bytes of a source that panics when read again: the panic of the case is
 			// raised from inside ReadFrom, after "partial" went out
@@ -407,6 +430,9 @@ func checkCase(c *Case) (err error) {
 		if c.RFWriter {
 			under = recWRF{w}
 		}
+		if c.Progress == "hijacked-twice" {
+			under = recWHJ{w, new(int)}
+		}
 		f.ServeHTTP(under, req)
 	}()
 	if raised != 1 {
@@ -437,6 +463,10 @@ func checkCase(c *Case) (err error) {
 		}
 	}
 	switch {
+	case c.Progress == "hijacked-twice" && !abort:
+		if len(w.codes) != 0 || w.body.Len() != 0 {
+			return fmt.Errorf("%sthe connection had been hijacked (a second attempt was refused): nothing may be sent through the writer any more, it received status codes %v body %q", desc, w.codes, w.body.String())
+		}
 	case abort, c.Progress == "flush":
 		// nothing more is required of the response (the flush case was judged above)
 	case started:
@@ -559,7 +589,7 @@ func genCase(t *rapid.T) *Case {
 	c := &Case{
 		Kind:     gen.Pick(t, []string{"route", "route", "route-ts", "noroute", "nomethod", "options"}, "kind"),
 		Value:    gen.Pick(t, values, "value"),
-		Progress: gen.Pick(t, []string{"none", "none", "informational", "header", "body", "flush", "switching", "readfrom-panic"}, "progress"),
+		Progress: gen.Pick(t, []string{"none", "none", "informational", "header", "body", "flush", "switching", "readfrom-panic", "hijacked-twice"}, "progress"),
 		Where:    "handler",
 	}
 	if c.Kind == "route" || c.Kind == "route-ts" {
@@ -626,7 +656,7 @@ func TestPanics(t *testing.T) {
 func TestExhaustive(t *testing.T) {
 	hs := []Header{{Name: "Authorization", Value: "tokAAA111q", Secret: true}, {Name: "Cookie", Value: "tokBBB222q", Secret: true}, {Name: "Accept", Value: "tokCCC333q"}}
 	for _, v := range values {
-		for _, p := range []string{"none", "informational", "header", "body", "flush", "switching", "readfrom-panic"} {
+		for _, p := range []string{"none", "informational", "header", "body", "flush", "switching", "readfrom-panic", "hijacked-twice"} {
 			for _, kw := range [][2]string{{"route", "handler"}, {"route", "inner-mw-before"}, {"route", "inner-mw-after"}, {"route", "updates-body"}, {"route", "view-body"}, {"route-ts", "handler"}, {"route-ts", "inner-mw-before"}, {"route-ts", "inner-mw-after"}, {"noroute", "handler"}, {"nomethod", "handler"}, {"options", "handler"}, {"noroute", "updates-body"}} {
 				for cut := 0; cut <= 3; cut++ {
 					if kw[1] != "updates-body" && cut > 0 {
